@@ -446,13 +446,14 @@ type supPath struct {
 	a        []mAct
 	pend     []mPend
 	trace    []string
+	final    bool      // the final snapshot has been taken: what follows is the shutdown of the system
 	overlap  bool      // two restarts of one actor were due within 15 ms of each other
 	lastComp string    // directive/strategy of the last failure acted upon
 	soft     *supDeath // a mismatch that does not stop the replay (restart counter)
 }
 
 func (p *supPath) clone() *supPath {
-	q := &supPath{a: make([]mAct, len(p.a)), pend: append([]mPend(nil), p.pend...), trace: append([]string(nil), p.trace...), overlap: p.overlap, lastComp: p.lastComp, soft: p.soft}
+	q := &supPath{a: make([]mAct, len(p.a)), pend: append([]mPend(nil), p.pend...), trace: append([]string(nil), p.trace...), overlap: p.overlap, lastComp: p.lastComp, soft: p.soft, final: p.final}
 	for i := range p.a {
 		q.a[i] = p.a[i]
 		q.a[i].deferred = append([][2]int(nil), p.a[i].deferred...)
@@ -479,12 +480,52 @@ type supDeath struct {
 	class, comp, detail string
 	at                  int
 	trace               []string
+	flagged             bool // died on a path on which restarts overlapped
 }
 
 type supOracle struct {
-	f     *supFam
-	paths []*supPath
-	best  *supDeath
+	f      *supFam
+	paths  []*supPath
+	best   *supDeath
+	deaths []*supDeath
+}
+
+func (o *supOracle) timeOf(at int) time.Duration {
+	log := o.f.s.Log
+	if len(log) == 0 {
+		return 0
+	}
+	if at >= len(log) {
+		at = len(log) - 1
+	}
+	return log[at].T
+}
+
+// choose picks the death that is reported when no path of the model explains the run: the one that got
+// furthest - unless that one lies on a path without overlapping restarts while an alternative path of the
+// same fork, on which restarts do overlap, died at the same simulated instant (the clean alternative was simply
+// the wrong guess), or it is only the end-of-run event count that differs.
+func (o *supOracle) choose() *supDeath {
+	best := o.best
+	if best == nil || best.flagged {
+		return best
+	}
+	var alt *supDeath
+	for _, d := range o.deaths {
+		if !d.flagged {
+			continue
+		}
+		dt := o.timeOf(best.at) - o.timeOf(d.at)
+		if best.class == "system-event-count-mismatch" || (dt <= 20*time.Millisecond && dt >= -20*time.Millisecond) {
+			if alt == nil || d.at > alt.at {
+				alt = d
+			}
+		}
+	}
+	if alt != nil {
+		return alt
+	}
+	return best
 }
 
 func (o *supOracle) die(p *supPath, at int, class, comp, format string, args ...any) {
@@ -497,7 +538,9 @@ func (o *supOracle) die(p *supPath, at int, class, comp, format string, args ...
 			st = "one-for-all"
 		}
 		d.class, d.comp, d.detail = "overlapping-restarts", st, class+"/"+comp+": "+d.detail
+		d.flagged = true
 	}
+	o.deaths = append(o.deaths, d)
 	// ties: a path on which restarts overlapped and that explains the run equally far wins (known family)
 	if o.best == nil || d.at > o.best.at || (d.at == o.best.at && d.class == "overlapping-restarts" && o.best.class != "overlapping-restarts") {
 		o.best = d
@@ -586,6 +629,12 @@ func (o *supOracle) effective(p *supPath, x, kind, tag int, t time.Duration) {
 	}
 	switch d {
 	case dStop:
+		for _, m := range group {
+			if m != x && p.inProgress(m, t) {
+				// a sibling in the middle of a restart is out of the actor tree: the group stop may miss it
+				p.overlap = true
+			}
+		}
 		for _, m := range group {
 			o.stopSubtree(p, m, comp, t)
 		}
@@ -736,7 +785,23 @@ func (o *supOracle) step(p *supPath, e Ev) []*supPath {
 
 	case "poststop-enter":
 		if x := f.idx(e.Actor); x >= 0 {
-			p.a[x].stopping = false
+			a := &p.a[x]
+			a.stopping = false
+			hasPend := false
+			for _, q := range p.pend {
+				if q.a == x || q.a == f.acts[x].parent {
+					hasPend = true
+				}
+			}
+			if !p.final && x >= 1 && a.st == stRun && !hasPend && p.a[f.acts[x].parent].st == stRun {
+				// neither a stop nor the shutdown half of a restart is due for it
+				comp := a.comp
+				if comp == "" {
+					comp = "untouched"
+				}
+				o.die(p, e.Seq, "unexpected-stop", comp, "PostStop of %s (PreStart run %d) ran at t=%v although the reference supervisor has it running with no restart due", e.Actor, e.Inc, t)
+				return nil
+			}
 		}
 		return []*supPath{p}
 
@@ -864,6 +929,9 @@ func (o *supOracle) step(p *supPath, e Ev) []*supPath {
 		ob, _ := e.Aux.(*supObs)
 		if ob == nil {
 			return []*supPath{p}
+		}
+		if ob.Final {
+			p.final = true
 		}
 		if ob.SysDown {
 			comp := p.lastComp
@@ -1025,7 +1093,7 @@ func supFinish(c *Ctx) {
 		}
 		o.paths = next
 	}
-	d := o.best
+	d := o.choose()
 	if len(o.paths) > 0 {
 		for _, p := range o.paths {
 			if p.soft == nil {
